@@ -73,6 +73,9 @@ impl Generator {
             return OpcodeKind::None;
         }
 
+        #[cfg(feature = "verif-hooks")]
+        super::verif::trace_valid(&opcodes, source);
+
         // uniform random selection
         let idx = source.choose_index(opcodes.len());
         opcodes[idx]
